@@ -74,7 +74,7 @@ theorem auth_iff (cfg : Cfg) (s : State) (c : Nat) (x : Conn) (f : Frame) (ident
     (hf : read f = some (.ok (.auth ident digest))) :
     ((∃ row, tbl ident = some row ∧ cfg.H (x.nonce ++ row.secret) = digest) →
       ∃ row, tbl ident = some row ∧ messageReceived cfg s c f =
-        (logAct (setAuth s c ident digest row) c (.setLimits (limit OP_PUBLISH * 50)), .cont)) ∧
+        (logAct (setAuth s c ident digest row) c (.setLimits (limit OP_PUBLISH * highWaterFactor)), .cont)) ∧
     (¬ (∃ row, tbl ident = some row ∧ cfg.H (x.nonce ++ row.secret) = digest) →
       messageReceived cfg s c f = (errorClose s c, .cont)) := by
   constructor
